@@ -26,16 +26,22 @@ P = {
          "bearer loaders set a session only for credentials the validator/verifier accepted; token shape and scheme); "
          "vh_C01_basic_validate (htpasswdMap.Validate iff the password verifies, ideal SHA1/bcrypt); vh_C13_signin "
          "(SignIn/ManualSignIn: session only for form credentials the htpasswd validator accepted); vh_C12_seq "
-         "(stored-session loader); vh_C07_proxy_wiring.",
-         "handlers entered with the request scope populated (gorilla/mux dispatch and buildServeMux registration not "
-         "executed); regex meaning is C15, cookie signature/expiry C02/C09, token verification C04"),
+         "(stored-session loader); vh_C07_proxy_wiring; vh_C01_dispatch (buildServeMux's real route table executed through "
+         "gorilla/mux from source: for every clean path the upstream is reached only behind the session chain and the "
+         "Proxy gate; auth-only/userinfo/sign-out sit behind the session chain); vh_C01_load_basic_converse (a "
+         "well-formed Basic credential reaches the validator intact, colons in the password included); vh_C15_routes "
+         "(bypass rules match the path only).",
+         "in the gate harnesses the request scope is populated directly; the dispatch harness uses a marker session "
+         "chain and excludes the start/callback/static routes; cookie signature/expiry are C02/C09, token verification "
+         "C04"),
  'C02': ("vh_C02_mac_one (+_multi thorough), vh_C09_window(_ns): SignedValue/Validate/checkSignature/cookieSignature/"
          "checkHmac with ideal HMAC: accepted implies the (name,value,timestamp) concatenation is an issued one under the "
          "same secret; name/value/timestamp/signature (removed, replaced, truncated)/secret/extra-part tampering; "
          "vh_C13_gcm_roundtrip, vh_C10_manager_roundtrip, vh_C13_manager_save (ticket cookie -> store key, AEAD round "
          "trip), vh_C10_cookie_roundtrip (cookie store Save->Load with the real code); CSRF cookie tampering in "
          "vh_C03_flow_single. Secrecy clause: verifOpaque obligations (stored value, ticket cookie, session cookie reveal "
-         "no token/e-mail/user outside an encryption/MAC/hash application) decided by a walk over the symbolic terms "
+         "no token/e-mail/user outside an encryption/MAC/hash application, where an encryption whose key can be read off the "
+         "observable - e.g. from the store key - counts as transparent) decided by a walk over the symbolic terms "
          "under the ideal-crypto model, exposures confirmed natively.",
          "crypto ideal; A-resplit assumption (re-splits of the un-delimited MAC input are neutralised by lz4/msgpack, "
          "outside the encoding); the secrecy obligations are Dolev-Yao style derivability over ideal terms (not an SMT "
@@ -53,7 +59,8 @@ P = {
          "session only from a token the verifier accepted, e-mail/user from the configured claims, unverified e-mail "
          "refused); vh_C05_nonce (ValidateSession verifies the token); vh_C14_profile_failure (profile fallback only for "
          "missing claims; failures are errors); vh_C01_load_jwt: a bearer session comes only from a token a verifier "
-         "accepted.",
+         "accepted; vh_C04_verifier_config (the library verifier is told to skip the issuer check only on the operator's "
+         "request, never expiry or signature).",
          "go-oidc's signature/issuer/expiry/alg verification is one nondeterministic accept/reject outside the encoding "
          "(alg-confusion not decided); claims are JSON values of depth <= 1"),
  'C05': ("vh_C05_pkce (S256/plain: challenge derived from the fresh verifier, exactly that verifier reaches Redeem, "
@@ -67,16 +74,18 @@ P = {
  'C06': ("vh_C06_abs (whitelist equals reference), vh_C06_rel (relative rule never yields a scheme-relative or schemed "
          "URL under the browser model; plain paths accepted), vh_C06_chain (GetRedirect returns '/' or a validated string, "
          "all getters), vh_C03_flow_single (callback redirect validated; login redirect targets the provider; plain rd "
-         "round trip byte for byte), vh_C16_redirect_pair.",
+         "round trip byte for byte), vh_C16_redirect_pair, vh_C06_abs_hostless (host-less URLs and host-less whitelist "
+         "entries allow nothing), vh_C06_chain_converse (a plain path and query comes back byte for byte; only prefix+'/' "
+         "paths go to '/').",
          "url.Parse is uninterpreted (Go-vs-browser parser differential not decided); http.Redirect's path cleaning "
          "modelled only for clean rooted/absolute targets"),
  'C07': ("vh_C07_request/_response: NewRequestHeaderInjector/NewResponseHeaderInjector (strip -> inject -> flatten, all "
          "injector closure shapes, GetClaim) equal an independent spec for every claim x shape x preserve x 0-2 client "
          "values x session/no session; vh_C07_proxy_wiring (Proxy applies the chain on authenticated and bypassed "
          "routes); vh_C07_legacy (LegacyOptions.ToOptions -> injector: with stripping on no spoofed value of a "
-         "flag-injected header reaches the upstream; which names each flag injects).",
-         "header keys canonical; one configured header per injector harness; AuthOnly's response-header chain is "
-         "exercised at the injector level only"),
+         "flag-injected header reaches the upstream; which names each flag injects); vh_C07_request_multi.",
+         "header keys canonical; vh_C07_request_multi: two or three configured headers with mixed preservation; AuthOnly's "
+         "response-header chain is exercised at the injector level only"),
  'C08': ("vh_C08_email (isEmailValidWithDomains equals last-'@' reference), vh_C08_authonly_groups/_emails/_all/"
          "_domain_concrete (+_domains thorough) (authOnlyAuthorize equals reference incl. exactly-one-'@'), vh_C01_gate_* "
          "(failing session => 403 + cookie cleared), vh_C03_flow_single (callback saves only if validator and Authorize), "
@@ -133,9 +142,12 @@ P = {
          "rewrite rules first then longest path first; permutation; first match = longest matching prefix under the "
          "stated mux contract), vh_C17_rewrite_query (client query survives a rewrite with its own query), "
          "vh_C17_director (setProxyDirector/setProxyUpstreamHostHeader: raw request URI verbatim, backend scheme/host, "
-         "method/headers untouched).",
-         "gorilla/mux, httputil.ReverseProxy transport, bodies, response relay, file/static upstreams NOT decided "
-         "(third-party machinery): only the first-party kernels are claimed"),
+         "method/headers untouched), vh_C17_mux (NewProxy with the real gorilla/mux executed from source: longest "
+         "configured prefix wins, on the percent-encoded path when raw-path proxying is on), vh_C17_relay (the first-party "
+         "response-writer wrapper relays every WriteHeader/Write/Flush of the upstream handler unchanged and in order, "
+         "1xx responses included).",
+         "httputil.ReverseProxy's transport, request bodies and file upstreams NOT decided (third-party machinery); the "
+         "mux harness uses static-response upstreams"),
  'C18': ("vh_C18_make (MakeCookieFromOptions/GetCookieDomain), vh_C18_sort (validateCookie ordering composed with the "
          "constructor), vh_C10_split/_clear (parts and deletions copy attributes), vh_C13_manager_save/_clear (ticket "
          "cookie), vh_C03_flow_* (CSRF cookie).",
